@@ -185,6 +185,28 @@ def run_batch_sample(ctx: Ctx) -> None:
                     _guard(ctx, "T5x.resample", f"batch:D={D}:src={a_s}:tgt={a_t}:per={per_image}", fS,
                            f"ImageBatch.sample D={D} source align_corners={a_s} target align_corners={a_t} per-image targets={per_image}", th)
 
+    # one target grid that equals the grid of the first image only
+    for D in (2, 3):
+        def thf(D=D):
+            env = SEnv(ctx)
+            it = env.it
+            ssz = SIZES[D][0]
+            srcs = [Geo(env, f"a{b}", ssz, True) for b in range(2)]
+            data = STensor.symbols("I", [2, 1] + list(srcs[0].shape))
+            batch = it.new(env.IB, data.clone(), tuple(g.obj for g in srcs))
+            del symt.GRID_SAMPLE_CALLS[:]
+            r = it.method(batch, "sample", srcs[0].obj)
+            rg = it.method(r, "grids")
+            for b in range(len(rg)):
+                m = as_h(it.method(rg[b], "transform", env.ax("GRID"), env.ax("WORLD")))
+                if not teq(m, srcs[0].i2w()):
+                    return False, f"sample(grid of image 0): image {b} is returned on a different grid than requested"
+            calls = list(symt.GRID_SAMPLE_CALLS)
+            if len(calls) != 1:
+                return False, f"sample(grid of image 0): image 1 lies on another grid and must be resampled ({len(calls)} torch.grid_sample calls)"
+            return check_call_coords(calls[0], 1, srcs[1], srcs[0].shape, compose(srcs[1].w2i(), srcs[0].i2w()), "image 1")
+        _guard(ctx, "T5x.resample", f"batch:D={D}:target=grid of image 0", fS, f"ImageBatch.sample D={D} target equals the grid of image 0 only", thf)
+
     # single Image
     for D in (2, 3):
         ssz, tsz = SIZES[D]
